@@ -125,7 +125,8 @@ IDivMod(x, y) == LET dm == MDivMod(x.m, y.m) IN            \* Python floor divis
 IShl(x, n) == Z(x.neg, MMul(x.m, MPow2(n)))
 IShr(x, n) == IDivMod(x, Z(FALSE, MPow2(n))).q
 RECURSIVE IPow(_, _)
-IPow(x, n) == IF n = 0 THEN IOne ELSE IMul(x, IPow(x, n - 1))
+IPow(x, n) == IF n = 0 THEN IOne                       \* square and multiply: recursion depth log n
+              ELSE LET h == IPow(x, n \div 2) IN IF n % 2 = 0 THEN IMul(h, h) ELSE IMul(IMul(h, h), x)
 INot(x) == ISub(INeg(x), IOne)
 IBit(f, x, y) ==        \* f: 1 and, 2 or, 3 xor ; negative numbers as infinite two's complement
     LET nx == INot(x).m      \* magnitude of ~x (non-negative) when x < 0
@@ -194,7 +195,8 @@ FFloorDiv(x, y) == IF ~(FIsDy(x) /\ FIsDy(y)) THEN FUnd
 FMod(x, y) == IF ~(FIsDy(x) /\ FIsDy(y)) THEN FUnd
               ELSE LET e == Max(x.e, y.e) IN NoZero(FNorm(ModPy(x.n * Pw2(e - x.e), y.n * Pw2(e - y.e)), e))
 RECURSIVE FPowNat(_, _)
-FPowNat(x, k) == IF k = 0 THEN FNorm(1, 0) ELSE IF k = 1 THEN x ELSE FMul(x, FPowNat(x, k - 1))
+FPowNat(x, k) == IF k = 0 THEN FNorm(1, 0) ELSE IF k = 1 THEN x
+                 ELSE LET h == FPowNat(x, k \div 2) IN IF k % 2 = 0 THEN FMul(h, h) ELSE FMul(FMul(h, h), x)
 \* comparison of two decided numbers: -1 / 0 / 1 ; 2 = undecided
 FCmp(x, y) == IF x.c = "und" \/ y.c = "und" THEN 2
               ELSE IF x.c = "huge" /\ y.c = "huge" THEN 0
@@ -323,7 +325,7 @@ ArithResult(c) == LET x == Lit(c.x)
                        [] c.op = "neg" -> PyNeg(x)
                        [] c.op = "inv" -> PyInv(x)
                        [] c.op = "abs" -> PyAbs(x)
-                       [] c.op = "fits64" -> Bool(Fits64(x))
+                       [] c.op = "fits64" -> Bool(Fits64(AsInt(x)))
                        [] OTHER -> PyBin(c.op, x, y)
 WellFormedValue(v) ==
     CASE v.t = "int" -> /\ \A i \in 1..Len(v.m) : v.m[i] \in 0..(B - 1)
@@ -335,9 +337,468 @@ WellFormedValue(v) ==
       [] v.t = "exc" -> v.x \in {"TypeError", "ZeroDivisionError", "OverflowError", "ValueError", "UnboundLocalError", "IndexError"}
       [] OTHER -> v.t = "und"
 
-VARIABLE m        \* the machine: arith phase [ph, i, r] ; run phase see below
-InitArith == \E i \in 1..Len(ArithCases) : m = [ph |-> "arith", i |-> i, r |-> ArithResult(ArithCases[i])]
-NextArith == UNCHANGED m
+VARIABLE m        \* the machine: arith phase [ph, i, done, r] ; static / run phases see below
+InitArith == \E i \in 1..Len(ArithCases) : m = [ph |-> "arith", i |-> i, done |-> FALSE, r |-> Und]
+ArithStep == m.ph = "arith" /\ ~m.done /\ m' = [m EXCEPT !.done = TRUE, !.r = ArithResult(ArithCases[m.i])]
+NextArith == ArithStep
 ArithWellFormed == m.ph = "arith" => WellFormedValue(m.r)
-PublishArith == m.ph = "arith" => PrintT("@@" \o ToJson([i |-> m.i, r |-> m.r]))
+PublishArith == (m.ph = "arith" /\ m.done) => PrintT("@@" \o ToJson([i |-> m.i, r |-> m.r]))
+
+---------------------------------------------------------------------------
+(* Part 2: programs.                                                                                  *)
+(* prog = [pid, params (seq of names), locals (seq of names, params included), body (seq of stmts),   *)
+(*         ty [name |-> "O"|"L"|"B"|"D"|"U"|"S"|"X"]  -- B3 fact: class of entry.type after inference *)
+(*         mk, lmk (seqs of names) -- B3 fact: entries with might_overflow in the function scope and   *)
+(*         in the scopes of its lambdas ; inputs (seq of seqs of literals)]                           *)
+(* expr = [k |-> "int"|"flt"|"str"|"bool" ...literal] | [k "name", v] | [k "bin", op, l, r] |         *)
+(*        [k "neg"|"inv"|"abs"|"len", e] | [k "cond", c, a, b] | [k "or"|"and", a, b] |               *)
+(*        [k "cmp", op, l, r] | [k "in", l, xs] | [k "mm", w, a, b] | [k "lam", e] (called at once) | *)
+(*        [k "idx", s, i] | [k "slice", s, lo, hi] | [k "tup", xs]                                    *)
+(* stmt = [k "asg", v, e] | [k "aug", v, op, e] | [k "if", c, t, f] | [k "forr", v, args, b] |        *)
+(*        [k "fors", v, s, b] | [k "ret", e]                                                          *)
+Progs == IF Phase = "run" THEN ndJsonDeserialize(IOEnv.PROGS) ELSE <<>>
+
+CTypes == {"L", "B", "D", "U"}
+IsLit(e) == e.k \in {"int", "flt", "str", "bool"}
+SmallIntLit(e) == e.k = "int" /\ (Len(e.m) <= 2 \/ MCmp(e.m, <<3648, 4748, 21>>) < 0 \/ (e.neg /\ e.m = <<3648, 4748, 21>>))   \* -2^31 <= v < 2^31
+NonNegIntLit(e) == e.k = "int" /\ ~e.neg
+IntegralFltLit(e) == e.k = "flt" /\ e.c = "dy" /\ e.e = 0
+BinE(op, l, r) == [k |-> "bin", op |-> op, l |-> l, r |-> r]
+NameE(v) == [k |-> "name", v |-> v]
+
+(* Cython's static type of an expression, given the types T of the locals (transcribed from the       *)
+(* analyse_types / infer_type rules of ExprNodes for this fragment; classes, not exact C types)       *)
+Both(a, b, S) == a \in S /\ b \in S
+RECURSIVE Ty(_, _)
+Ty(e, T) ==
+    CASE e.k = "int" -> IF SmallIntLit(e) THEN "L" ELSE "O"
+      [] e.k = "flt" -> "D"
+      [] e.k = "str" -> "S"
+      [] e.k = "bool" -> "B"
+      [] e.k = "name" -> T[e.v]
+      [] e.k = "bin" ->
+            LET a == Ty(e.l, T)
+                b == Ty(e.r, T)
+            IN CASE e.op \in {"+", "-", "*", "//", "%"} ->
+                        IF Both(a, b, {"L", "D"}) THEN (IF a = "D" \/ b = "D" THEN "D" ELSE "L")
+                        ELSE IF e.op = "+" /\ a = "S" /\ b = "S" THEN "S"
+                        ELSE IF e.op = "*" /\ a = "S" /\ b = "L" THEN "S"
+                        ELSE "O"
+                 [] e.op = "/" -> IF Both(a, b, {"L", "D"}) THEN "D" ELSE "O"
+                 [] e.op = "**" ->
+                        IF a = "L" /\ b = "L" THEN (IF NonNegIntLit(e.r) THEN "L" ELSE "D")
+                        ELSE IF a = "L" /\ b = "D" THEN "X"
+                        ELSE IF a = "D" /\ b = "L" THEN "D"
+                        ELSE IF a = "D" /\ b = "D" THEN (IF IntegralFltLit(e.r) THEN "D" ELSE "X")
+                        ELSE "O"
+                 [] OTHER -> IF a = "L" /\ b = "L" THEN "L" ELSE "O"           \* shifts, bitwise
+      [] e.k \in {"neg", "abs"} -> (LET a == Ty(e.e, T) IN IF a \in {"L", "D"} THEN a ELSE "O")
+      [] e.k = "inv" -> IF Ty(e.e, T) = "L" THEN "L" ELSE "O"
+      [] e.k = "len" -> "L"
+      [] e.k \in {"cond", "or", "and", "mm"} ->
+            LET a == Ty(e.a, T)
+                b == Ty(e.b, T)
+            IN IF a = b THEN a ELSE IF Both(a, b, {"L", "D"}) THEN "D" ELSE "O"
+      [] e.k = "cmp" -> IF Both(Ty(e.l, T), Ty(e.r, T), {"L", "D", "B", "U"}) \/ Both(Ty(e.l, T), Ty(e.r, T), {"U", "S"}) THEN "B" ELSE "O"
+      [] e.k = "in" -> IF Ty(e.l, T) \in {"L", "U"} THEN "B" ELSE "O"
+      [] e.k = "idx" -> IF Ty(e.s, T) = "S" /\ Ty(e.i, T) = "L" THEN "U" ELSE "O"
+      [] e.k = "slice" -> IF Ty(e.s, T) = "S" THEN "S" ELSE "O"
+      [] OTHER -> "O"                 \* lam (a call), tup
+
+(* the fragment for which Ty is a faithful transcription (checked for every program) *)
+RECURSIVE ExprOK(_, _)
+ExprOK(e, T) ==
+    CASE IsLit(e) -> TRUE
+      [] e.k = "name" -> e.v \in DOMAIN T
+      [] e.k = "bin" -> /\ ExprOK(e.l, T) /\ ExprOK(e.r, T)
+                        /\ ~(IsLit(e.l) /\ IsLit(e.r))                                      \* would be constant-folded
+                        /\ Ty(e.l, T) \notin {"B", "X"} /\ Ty(e.r, T) \notin {"B", "X"}
+                        /\ (e.op \in BitOps \cup ShiftOps => Ty(e.l, T) # "D" /\ Ty(e.r, T) # "D")
+                        /\ (e.op = "**" => e.r.k = "int")
+      [] e.k \in {"neg", "abs", "inv"} -> ExprOK(e.e, T) /\ ~IsLit(e.e) /\ Ty(e.e, T) \notin {"B", "X"} /\ (e.k = "inv" => Ty(e.e, T) # "D")
+      [] e.k = "len" -> ExprOK(e.e, T)
+      [] e.k = "cond" -> ExprOK(e.c, T) /\ ExprOK(e.a, T) /\ ExprOK(e.b, T) /\ (Ty(e.a, T) = Ty(e.b, T) \/ "O" \in {Ty(e.a, T), Ty(e.b, T)})
+      [] e.k \in {"or", "and", "mm"} -> ExprOK(e.a, T) /\ ExprOK(e.b, T) /\ (Ty(e.a, T) = Ty(e.b, T) \/ "O" \in {Ty(e.a, T), Ty(e.b, T)})
+      [] e.k = "cmp" -> ExprOK(e.l, T) /\ ExprOK(e.r, T)
+      [] e.k = "in" -> ExprOK(e.l, T) /\ \A i \in 1..Len(e.xs) : IsLit(e.xs[i])
+      [] e.k = "lam" -> ExprOK(e.e, T)
+      [] e.k = "idx" -> ExprOK(e.s, T) /\ ExprOK(e.i, T)
+      [] e.k = "slice" -> ExprOK(e.s, T) /\ ExprOK(e.lo, T) /\ ExprOK(e.hi, T)
+      [] e.k = "tup" -> \A i \in 1..Len(e.xs) : ExprOK(e.xs[i], T)
+      [] OTHER -> FALSE
+RECURSIVE BlockOK(_, _)
+StmtOK(s, T) ==
+    CASE s.k = "asg" -> s.v \in DOMAIN T /\ ExprOK(s.e, T)
+      [] s.k = "aug" -> s.v \in DOMAIN T /\ ExprOK(BinE(s.op, NameE(s.v), s.e), T)
+      [] s.k = "if" -> ExprOK(s.c, T) /\ BlockOK(s.t, T) /\ BlockOK(s.f, T)
+      [] s.k = "forr" -> s.v \in DOMAIN T /\ Len(s.args) \in 1..3 /\ (\A i \in 1..Len(s.args) : ExprOK(s.args[i], T)) /\ BlockOK(s.b, T)
+      [] s.k = "fors" -> s.v \in DOMAIN T /\ ExprOK(s.s, T) /\ BlockOK(s.b, T)
+      [] s.k = "ret" -> ExprOK(s.e, T)
+      [] OTHER -> FALSE
+BlockOK(b, T) == \A i \in 1..Len(b) : StmtOK(b[i], T)
+
+---------------------------------------------------------------------------
+(* hazards: where the C-typed program does not behave like the Python program *)
+Hz(h, c, v) == [h |-> h, c |-> c, v |-> v]
+R(v, hz) == [v |-> v, hz |-> hz]
+Unb == [t |-> "unb"]
+NoneV == [t |-> "none"]
+Dead(v) == v.t \in {"exc", "und"}                  \* evaluation stops here
+
+(* names whose value reaches an arithmetic operand, and how MarkOverflowingArithmetic sees them:       *)
+(* "direct" = visited with might_overflow set, "shield" = below a node that resets the flag            *)
+(* (visit_Node = visit_safe_node), "closure" = inside a lambda: the mark goes to the inner entry       *)
+RECURSIVE Leaves(_, _, _)
+Leaves(e, how, sc) ==
+    CASE e.k = "name" -> {<<e.v, IF sc = "lam" THEN "closure" ELSE how>>}
+      [] e.k = "bin" -> Leaves(e.l, IF e.op \in BitOps THEN how ELSE "direct", sc) \cup Leaves(e.r, IF e.op \in BitOps THEN how ELSE "direct", sc)
+      [] e.k \in {"neg", "abs"} -> Leaves(e.e, "direct", sc)
+      [] e.k = "inv" -> Leaves(e.e, how, sc)
+      [] e.k \in {"cond", "or", "and", "mm"} -> Leaves(e.a, "shield", sc) \cup Leaves(e.b, "shield", sc)
+      [] e.k = "cmp" -> Leaves(e.l, "shield", sc) \cup Leaves(e.r, "shield", sc)
+      [] OTHER -> {}
+ArithCause(e, T, sc, tset) ==      \* e: the node that computes in C ; tset: the C types that matter
+    LET ls == {x \in (IF e.k = "bin" THEN Leaves(e.l, "direct", sc) \cup Leaves(e.r, "direct", sc) ELSE Leaves(e.e, "direct", sc)) : T[x[1]] \in tset}
+    IN IF \E x \in ls : x[2] = "direct" THEN "direct_name"
+       ELSE IF \E x \in ls : x[2] = "closure" THEN "closure_name"
+       ELSE IF ls # {} THEN "shielded_name"
+       ELSE "no_name"
+IntV(v) == v.t \in {"int", "bool"}
+BinHazards(e, lv, rv, res, T, sc) ==
+    LET a == Ty(e.l, T)
+        b == Ty(e.r, T)
+        t == Ty(e, T)
+        ci == ArithCause(e, T, sc, {"L", "U", "B"})
+        cd == IF ArithCause(e, T, sc, {"D"}) = "no_name" THEN "no_name" ELSE "double_name"
+        H(h) == {Hz(h, ci, "")}
+    IN IF a = "L" /\ b = "L" THEN
+            CASE e.op \in {"+", "-", "*", "//", "%"} -> IF res.t = "int" /\ ~Fits64(res) THEN H("c_int_overflow") ELSE {}
+              [] e.op = "<<" -> IF IntV(rv) /\ (AsInt(rv).neg \/ ICmp(AsInt(rv), INat(64)) >= 0) THEN H("c_shift_ub")
+                                ELSE IF res.t = "int" /\ ~Fits64(res) THEN H("c_int_overflow") ELSE {}
+              [] e.op = ">>" -> IF IntV(rv) /\ (AsInt(rv).neg \/ ICmp(AsInt(rv), INat(64)) >= 0) THEN H("c_shift_ub") ELSE {}
+              [] e.op = "**" -> IF t = "L" THEN (IF res.t = "int" /\ ~Fits64(res) THEN H("c_int_overflow") ELSE {})
+                                ELSE IF res.t \in {"int", "und"} THEN H("c_pow_int_as_double") ELSE {}
+              [] e.op = "/" -> IF IntV(lv) /\ IntV(rv) /\ ~(Within53(AsInt(lv)) /\ Within53(AsInt(rv))) THEN H("c_truediv_precision") ELSE {}
+              [] OTHER -> {}
+       ELSE IF Both(a, b, {"L", "D"}) THEN
+            (IF e.op = "**" /\ res.t = "exc" THEN {Hz("c_double_pow", cd, "")} ELSE {})
+       ELSE {}
+CmpHazards(e, lv, rv, T, sc) ==
+    LET a == Ty(e.l, T)
+        b == Ty(e.r, T)
+    IN (IF (a = "U" /\ b \in {"L", "B"}) \/ (b = "U" /\ a \in {"L", "B"}) THEN {Hz("uchar_num_compare", "ucs4_is_int", "")} ELSE {})
+       \cup (IF ((a = "L" /\ b = "D" /\ IntV(lv) /\ ~Within53(AsInt(lv))) \/ (a = "D" /\ b = "L" /\ IntV(rv) /\ ~Within53(AsInt(rv))))
+             THEN {Hz("c_int_float_compare", ArithCause(BinE("+", e.l, e.r), T, sc, {"L"}), "")} ELSE {})
+
+StrIndex(s, i) ==        \* s: codes, i: int value
+    LET n == Len(s) IN
+    IF ~ISmall(i) THEN Exc("IndexError")
+    ELSE LET k == IToInt(i)
+             j == IF k < 0 THEN k + n ELSE k
+         IN IF j < 0 \/ j >= n THEN Exc("IndexError") ELSE Str(<<s[j + 1]>>)
+Clamp(i, n) ==           \* slice bound -> 0..n
+    IF ~ISmall(i) THEN (IF i.neg THEN 0 ELSE n)
+    ELSE LET k == IToInt(i)
+             j == IF k < 0 THEN k + n ELSE k
+         IN IF j < 0 THEN 0 ELSE IF j > n THEN n ELSE j
+StrSlice(s, lo, hi) == LET a == Clamp(lo, Len(s))
+                           b == Clamp(hi, Len(s))
+                       IN Str(IF a >= b THEN <<>> ELSE SubSeq(s, a + 1, b))
+
+RECURSIVE Eval(_, _, _, _)
+RECURSIVE EvalSeq(_, _, _, _, _)
+EvalSeq(xs, i, env, T, sc) ==       \* left to right; [vs |-> seq of values, hz, dead |-> first exc/und or Unb]
+    IF i > Len(xs) THEN [vs |-> <<>>, hz |-> {}, dead |-> Unb]
+    ELSE LET x == Eval(xs[i], env, T, sc) IN
+         IF x.v.t = "exc" THEN [vs |-> <<>>, hz |-> x.hz, dead |-> x.v]
+         ELSE LET rest == EvalSeq(xs, i + 1, env, T, sc) IN
+              [vs |-> <<x.v>> \o rest.vs, hz |-> x.hz \cup rest.hz, dead |-> rest.dead]
+Eval(e, env, T, sc) ==
+    CASE IsLit(e) -> R(Lit(e), {})
+      [] e.k = "name" ->
+            IF env[e.v].t = "unb"
+            THEN R(Exc("UnboundLocalError"), IF T[e.v] \in CTypes THEN {Hz("unbound_c_read", "c_local_has_no_unbound_state", e.v)} ELSE {})
+            ELSE R(env[e.v], {})
+      [] e.k = "bin" ->
+            LET l == Eval(e.l, env, T, sc) IN
+            IF l.v.t = "exc" THEN l
+            ELSE LET r == Eval(e.r, env, T, sc) IN
+                 IF r.v.t = "exc" THEN R(r.v, l.hz \cup r.hz)
+                 ELSE IF l.v.t = "und" \/ r.v.t = "und" THEN R(Und, l.hz \cup r.hz)
+                 ELSE LET res == PyBin(e.op, l.v, r.v) IN R(res, l.hz \cup r.hz \cup BinHazards(e, l.v, r.v, res, T, sc))
+      [] e.k \in {"neg", "abs", "inv"} ->
+            LET x == Eval(e.e, env, T, sc) IN
+            IF Dead(x.v) THEN x
+            ELSE LET res == CASE e.k = "neg" -> PyNeg(x.v) [] e.k = "abs" -> PyAbs(x.v) [] OTHER -> PyInv(x.v) IN
+                 R(res, x.hz \cup (IF e.k # "inv" /\ Ty(e.e, T) = "L" /\ res.t = "int" /\ ~Fits64(res)
+                                   THEN {Hz("c_int_overflow", ArithCause(e, T, sc, {"L", "U", "B"}), "")} ELSE {}))
+      [] e.k = "len" ->
+            LET x == Eval(e.e, env, T, sc) IN
+            IF Dead(x.v) THEN x ELSE IF x.v.t = "str" THEN R(INat(Len(x.v.s)), x.hz) ELSE R(Exc("TypeError"), x.hz)
+      [] e.k = "cond" ->
+            LET c == Eval(e.c, env, T, sc) IN
+            IF Dead(c.v) THEN c
+            ELSE IF ~TruthDecided(c.v) THEN R(Und, c.hz)
+            ELSE LET x == Eval(IF Truth(c.v) THEN e.a ELSE e.b, env, T, sc) IN R(x.v, c.hz \cup x.hz)
+      [] e.k \in {"or", "and"} ->
+            LET a == Eval(e.a, env, T, sc) IN
+            IF Dead(a.v) THEN a
+            ELSE IF ~TruthDecided(a.v) THEN R(Und, a.hz)
+            ELSE IF Truth(a.v) = (e.k = "or") THEN a
+            ELSE LET b == Eval(e.b, env, T, sc) IN R(b.v, a.hz \cup b.hz)
+      [] e.k = "cmp" ->
+            LET l == Eval(e.l, env, T, sc) IN
+            IF l.v.t = "exc" THEN l
+            ELSE LET r == Eval(e.r, env, T, sc) IN
+                 IF r.v.t = "exc" THEN R(r.v, l.hz \cup r.hz)
+                 ELSE IF l.v.t = "und" \/ r.v.t = "und" THEN R(Und, l.hz \cup r.hz)
+                 ELSE R(PyCmp(e.op, l.v, r.v), l.hz \cup r.hz \cup CmpHazards(e, l.v, r.v, T, sc))
+      [] e.k = "in" ->
+            LET l == Eval(e.l, env, T, sc) IN
+            IF Dead(l.v) THEN l
+            ELSE LET eqs == {i \in 1..Len(e.xs) : PyCmp("==", l.v, Lit(e.xs[i])).t = "und"}
+                     hit == \E i \in 1..Len(e.xs) : LET c == PyCmp("==", l.v, Lit(e.xs[i])) IN c.t = "bool" /\ c.b
+                 IN R(IF eqs # {} THEN Und ELSE Bool(hit),
+                      l.hz \cup (IF Ty(e.l, T) = "U" /\ (\E i \in 1..Len(e.xs) : e.xs[i].k = "int")
+                                 THEN {Hz("uchar_num_compare", "ucs4_is_int", "")} ELSE {}))
+      [] e.k = "mm" ->
+            LET a == Eval(e.a, env, T, sc) IN
+            IF a.v.t = "exc" THEN a
+            ELSE LET b == Eval(e.b, env, T, sc) IN
+                 IF b.v.t = "exc" THEN R(b.v, a.hz \cup b.hz)
+                 ELSE IF a.v.t = "und" \/ b.v.t = "und" THEN R(Und, a.hz \cup b.hz)
+                 ELSE LET c == PyCmp(IF e.w = "min" THEN "<" ELSE ">", b.v, a.v) IN
+                      R(IF c.t # "bool" THEN c ELSE IF c.b THEN b.v ELSE a.v, a.hz \cup b.hz)
+      [] e.k = "lam" -> Eval(e.e, env, T, "lam")
+      [] e.k = "idx" ->
+            LET s == Eval(e.s, env, T, sc) IN
+            IF s.v.t = "exc" THEN s
+            ELSE LET i == Eval(e.i, env, T, sc) IN
+                 IF i.v.t = "exc" THEN R(i.v, s.hz \cup i.hz)
+                 ELSE IF s.v.t = "und" \/ i.v.t = "und" THEN R(Und, s.hz \cup i.hz)
+                 ELSE IF s.v.t # "str" \/ ~IntV(i.v) THEN R(Exc("TypeError"), s.hz \cup i.hz)
+                 ELSE R(StrIndex(s.v.s, AsInt(i.v)), s.hz \cup i.hz)
+      [] e.k = "slice" ->
+            LET x == EvalSeq(<<e.s, e.lo, e.hi>>, 1, env, T, sc) IN
+            IF x.dead.t = "exc" THEN R(x.dead, x.hz)
+            ELSE IF \E i \in 1..3 : x.vs[i].t = "und" THEN R(Und, x.hz)
+            ELSE IF x.vs[1].t # "str" \/ ~IntV(x.vs[2]) \/ ~IntV(x.vs[3]) THEN R(Exc("TypeError"), x.hz)
+            ELSE R(StrSlice(x.vs[1].s, AsInt(x.vs[2]), AsInt(x.vs[3])),
+                   x.hz \cup (IF Ty(e.s, T) = "S" /\ ((Ty(e.lo, T) = "O" /\ ~Fits64(AsInt(x.vs[2]))) \/ (Ty(e.hi, T) = "O" /\ ~Fits64(AsInt(x.vs[3]))))
+                              THEN {Hz("typed_slice_bound", "builtin_type_inferred", IF e.s.k = "name" THEN e.s.v ELSE "")} ELSE {}))
+      [] e.k = "tup" ->
+            LET x == EvalSeq(e.xs, 1, env, T, sc) IN
+            IF x.dead.t = "exc" THEN R(x.dead, x.hz) ELSE R([t |-> "tup", xs |-> x.vs], x.hz)
+      [] OTHER -> R(Und, {})
+
+(* storing a value into a local of type ty: does the C variable represent it? *)
+Represents(ty, v) ==
+    CASE ty = "L" -> v.t = "int" /\ Fits64(v)
+      [] ty = "D" -> v.t = "float"
+      [] ty = "B" -> v.t = "bool"
+      [] ty = "U" -> v.t = "str" /\ Len(v.s) = 1
+      [] ty = "S" -> v.t = "str"
+      [] OTHER -> TRUE
+StoreHazards(x, ty, v) ==
+    IF v.t = "und" \/ Represents(ty, v) THEN {}
+    ELSE IF ty = "D" /\ IntV(v) THEN {Hz("int_as_double", "span_long_double", x)}
+    ELSE IF ty = "L" /\ v.t = "str" THEN {Hz("char_as_long", "span_ucs4_long", x)}
+    ELSE {Hz("store_mismatch", "unexpected_" \o ty, x)}
+
+---------------------------------------------------------------------------
+(* small-step execution: one statement / loop iteration per step, every iteration of every loop *)
+Running == [t |-> "run"]
+BlkFr(b) == [k |-> "blk", b |-> b, i |-> 1]
+Top == m.stk[Len(m.stk)]
+Pop == SubSeq(m.stk, 1, Len(m.stk) - 1)
+P == Progs[m.pid]
+T == P.ty
+Live == m.ph = "run" /\ m.out.t = "run"
+AtStmt(k) == Live /\ m.stk # <<>> /\ Top.k = "blk" /\ Top.i <= Len(Top.b) /\ Top.b[Top.i].k = k
+Cur == Top.b[Top.i]
+Adv == Pop \o <<[Top EXCEPT !.i = Top.i + 1]>>       \* the stack with the current statement done
+Stop(v, hz) == m' = [m EXCEPT !.out = v, !.hz = m.hz \cup hz, !.steps = m.steps + 1]
+Budget == m.steps < MaxSteps
+TooBig(v) == (v.t = "int" /\ Len(v.m) > MaxLimbs) \/ v.t = "tup"       \* beyond the model's bound: the case is left undecided
+OverBudget == Live /\ ~Budget /\ Stop(Und, {})
+
+StepAsg == AtStmt("asg") /\ Budget /\
+    LET x == Eval(Cur.e, m.env, T, "f") IN
+    IF Dead(x.v) THEN Stop(x.v, x.hz)
+    ELSE IF TooBig(x.v) THEN Stop(Und, x.hz)
+    ELSE m' = [m EXCEPT !.env = [m.env EXCEPT ![Cur.v] = x.v], !.stk = Adv, !.steps = m.steps + 1,
+                        !.hz = m.hz \cup x.hz \cup StoreHazards(Cur.v, T[Cur.v], x.v)]
+StepAug == AtStmt("aug") /\ Budget /\
+    LET x == Eval(BinE(Cur.op, NameE(Cur.v), Cur.e), m.env, T, "f") IN
+    IF Dead(x.v) THEN Stop(x.v, x.hz)
+    ELSE IF TooBig(x.v) THEN Stop(Und, x.hz)
+    ELSE m' = [m EXCEPT !.env = [m.env EXCEPT ![Cur.v] = x.v], !.stk = Adv, !.steps = m.steps + 1,
+                        !.hz = m.hz \cup x.hz \cup StoreHazards(Cur.v, T[Cur.v], x.v)]
+StepIf == AtStmt("if") /\ Budget /\
+    LET c == Eval(Cur.c, m.env, T, "f") IN
+    IF Dead(c.v) THEN Stop(c.v, c.hz)
+    ELSE IF ~TruthDecided(c.v) THEN Stop(Und, c.hz)
+    ELSE m' = [m EXCEPT !.stk = Adv \o <<BlkFr(IF Truth(c.v) THEN Cur.t ELSE Cur.f)>>, !.hz = m.hz \cup c.hz, !.steps = m.steps + 1]
+RangeOf(vs) ==      \* values of range()'s arguments -> [ok, lo, hi, st] | exception
+    IF \E i \in 1..Len(vs) : vs[i].t = "und" THEN Und
+    ELSE IF \E i \in 1..Len(vs) : ~IntV(vs[i]) THEN Exc("TypeError")
+    ELSE IF \E i \in 1..Len(vs) : ~ISmall(AsInt(vs[i])) THEN Und
+    ELSE LET n(i) == IToInt(AsInt(vs[i])) IN
+         IF Len(vs) = 1 THEN [t |-> "range", lo |-> 0, hi |-> n(1), st |-> 1]
+         ELSE IF Len(vs) = 2 THEN [t |-> "range", lo |-> n(1), hi |-> n(2), st |-> 1]
+         ELSE IF n(3) = 0 THEN Exc("ValueError") ELSE [t |-> "range", lo |-> n(1), hi |-> n(2), st |-> n(3)]
+StepForRange == AtStmt("forr") /\ Budget /\
+    LET x == EvalSeq(Cur.args, 1, m.env, T, "f")
+        r == IF x.dead.t = "exc" THEN x.dead ELSE RangeOf(x.vs)
+    IN IF r.t # "range" THEN Stop(r, x.hz)
+       ELSE m' = [m EXCEPT !.stk = Adv \o <<[k |-> "forr", v |-> Cur.v, cur |-> r.lo, hi |-> r.hi, st |-> r.st, b |-> Cur.b]>>,
+                           !.hz = m.hz \cup x.hz, !.steps = m.steps + 1]
+StepForStr == AtStmt("fors") /\ Budget /\
+    LET x == Eval(Cur.s, m.env, T, "f") IN
+    IF Dead(x.v) THEN Stop(x.v, x.hz)
+    ELSE IF x.v.t # "str" THEN Stop(Exc("TypeError"), x.hz)
+    ELSE m' = [m EXCEPT !.stk = Adv \o <<[k |-> "fors", v |-> Cur.v, s |-> x.v.s, i |-> 1, b |-> Cur.b]>>,
+                        !.hz = m.hz \cup x.hz, !.steps = m.steps + 1]
+StepReturn == AtStmt("ret") /\ Budget /\
+    LET x == Eval(Cur.e, m.env, T, "f") IN Stop(x.v, x.hz)
+More(f) == IF f.k = "forr" THEN (IF f.st > 0 THEN f.cur < f.hi ELSE f.cur > f.hi) ELSE f.i <= Len(f.s)
+StepIter == Live /\ Budget /\ m.stk # <<>> /\ Top.k \in {"forr", "fors"} /\ More(Top) /\
+    LET v == IF Top.k = "forr" THEN ISmallInt(Top.cur) ELSE Str(<<Top.s[Top.i]>>)
+        f == IF Top.k = "forr" THEN [Top EXCEPT !.cur = Top.cur + Top.st] ELSE [Top EXCEPT !.i = Top.i + 1]
+    IN m' = [m EXCEPT !.env = [m.env EXCEPT ![Top.v] = v], !.stk = Pop \o <<f, BlkFr(Top.b)>>, !.steps = m.steps + 1,
+                      !.hz = m.hz \cup StoreHazards(Top.v, T[Top.v], v)]
+StepLoopEnd == Live /\ m.stk # <<>> /\ Top.k \in {"forr", "fors"} /\ ~More(Top) /\ m' = [m EXCEPT !.stk = Pop]
+StepBlockEnd == Live /\ m.stk # <<>> /\ Top.k = "blk" /\ Top.i > Len(Top.b) /\ m' = [m EXCEPT !.stk = Pop]
+StepFallOff == Live /\ m.stk = <<>> /\ Stop(NoneV, {})
+
+---------------------------------------------------------------------------
+(* Part 3: the inferer's own rules *)
+(* MarkOverflowingArithmetic: the names visited while might_overflow is set; <<name, scope>> *)
+RECURSIVE MarkE(_, _, _)
+MarkSeq(xs, flag, sc) == UNION {MarkE(xs[i], flag, sc) : i \in 1..Len(xs)}
+MarkE(e, flag, sc) ==
+    CASE e.k = "name" -> IF flag THEN {<<e.v, sc>>} ELSE {}
+      [] e.k = "bin" -> LET f == IF e.op \in BitOps THEN flag ELSE TRUE IN MarkE(e.l, f, sc) \cup MarkE(e.r, f, sc)   \* neutral / dangerous
+      [] e.k \in {"neg", "abs"} -> MarkE(e.e, TRUE, sc)            \* visit_UnaryMinusNode, abs(): dangerous
+      [] e.k \in {"inv", "len"} -> MarkE(e.e, flag, sc)            \* visit_UnopNode, other calls: neutral
+      [] e.k = "cond" -> MarkE(e.c, FALSE, sc) \cup MarkE(e.a, FALSE, sc) \cup MarkE(e.b, FALSE, sc)    \* visit_Node = visit_safe_node
+      [] e.k \in {"or", "and", "mm"} -> MarkE(e.a, FALSE, sc) \cup MarkE(e.b, FALSE, sc)
+      [] e.k = "cmp" -> MarkE(e.l, FALSE, sc) \cup MarkE(e.r, FALSE, sc)
+      [] e.k = "in" -> MarkE(e.l, FALSE, sc)
+      [] e.k = "lam" -> MarkE(e.e, FALSE, "lam")                   \* visit_FuncDefNode: safe, own scope
+      [] e.k = "idx" -> MarkE(e.s, FALSE, sc) \cup MarkE(e.i, FALSE, sc)
+      [] e.k = "slice" -> MarkE(e.s, FALSE, sc) \cup MarkE(e.lo, FALSE, sc) \cup MarkE(e.hi, FALSE, sc)
+      [] e.k = "tup" -> MarkSeq(e.xs, FALSE, sc)
+      [] OTHER -> {}
+RECURSIVE MarkB(_)
+MarkS(s) ==
+    CASE s.k = "asg" -> MarkE(s.e, FALSE, "f") \cup (IF s.e.k = "int" /\ ~SmallIntLit(s.e) THEN {<<s.v, "f">>} ELSE {})    \* Utils.long_literal
+      [] s.k = "aug" -> {<<s.v, "f">>} \cup MarkE(s.e, TRUE, "f")                                                         \* InPlaceAssignmentNode: dangerous
+      [] s.k = "if" -> MarkE(s.c, FALSE, "f") \cup MarkB(s.t) \cup MarkB(s.f)
+      [] s.k = "forr" -> MarkSeq(s.args, FALSE, "f") \cup MarkB(s.b)
+      [] s.k = "fors" -> MarkE(s.s, FALSE, "f") \cup MarkB(s.b)
+      [] OTHER -> MarkE(s.e, FALSE, "f")
+MarkB(b) == UNION {MarkS(b[i]) : i \in 1..Len(b)}
+SeqSet(s) == {s[i] : i \in 1..Len(s)}
+
+(* the types of the right-hand sides assigned to a local (MarkParallelAssignments + FlowControl) *)
+RECURSIVE AsgB(_, _, _)
+AsgS(s, x, TT) ==
+    CASE s.k = "asg" -> IF s.v = x THEN {Ty(s.e, TT)} ELSE {}
+      [] s.k = "aug" -> IF s.v = x THEN {Ty(BinE(s.op, NameE(s.v), s.e), TT)} ELSE {}
+      [] s.k = "if" -> AsgB(s.t, x, TT) \cup AsgB(s.f, x, TT)
+      [] s.k = "forr" -> (IF s.v # x THEN {}
+                          ELSE {Ty(s.args[i], TT) : i \in 1..Min(2, Len(s.args))}
+                               \cup (IF Len(s.args) = 3 THEN {Ty(BinE("+", s.args[1], s.args[3]), TT)} ELSE {})) \cup AsgB(s.b, x, TT)
+      [] s.k = "fors" -> (IF s.v # x THEN {} ELSE {IF Ty(s.s, TT) = "S" THEN "U" ELSE "O"}) \cup AsgB(s.b, x, TT)
+      [] OTHER -> {}
+AsgB(b, x, TT) == UNION {AsgS(b[i], x, TT) : i \in 1..Len(b)}
+RECURSIVE NamesE(_)
+NamesE(e) ==
+    CASE e.k = "name" -> {e.v}
+      [] e.k \in {"bin", "cmp"} -> NamesE(e.l) \cup NamesE(e.r)
+      [] e.k \in {"neg", "abs", "inv", "len", "lam"} -> NamesE(e.e)
+      [] e.k = "cond" -> NamesE(e.c) \cup NamesE(e.a) \cup NamesE(e.b)
+      [] e.k \in {"or", "and", "mm"} -> NamesE(e.a) \cup NamesE(e.b)
+      [] e.k = "in" -> NamesE(e.l)
+      [] e.k = "idx" -> NamesE(e.s) \cup NamesE(e.i)
+      [] e.k = "slice" -> NamesE(e.s) \cup NamesE(e.lo) \cup NamesE(e.hi)
+      [] e.k = "tup" -> UNION {NamesE(e.xs[i]) : i \in 1..Len(e.xs)}
+      [] OTHER -> {}
+RECURSIVE RhsNamesB(_, _)
+RhsNamesS(s, x) ==
+    CASE s.k = "asg" -> IF s.v = x THEN NamesE(s.e) ELSE {}
+      [] s.k = "aug" -> IF s.v = x THEN NamesE(s.e) ELSE {}
+      [] s.k = "if" -> RhsNamesB(s.t, x) \cup RhsNamesB(s.f, x)
+      [] s.k = "forr" -> (IF s.v = x THEN UNION {NamesE(s.args[i]) : i \in 1..Len(s.args)} ELSE {}) \cup RhsNamesB(s.b, x)
+      [] s.k = "fors" -> (IF s.v = x THEN NamesE(s.s) ELSE {}) \cup RhsNamesB(s.b, x)
+      [] OTHER -> {}
+RhsNamesB(b, x) == UNION {RhsNamesS(b[i], x) : i \in 1..Len(b)}
+
+(* find_spanning_type + PyrexTypes.spanning_type on the classes, then safe_spanning_type *)
+Span2(a, b) == IF a = b THEN a
+               ELSE IF a = "B" \/ b = "B" THEN "O"                       \* bint never spans with another type
+               ELSE IF Both(a, b, {"L", "D"}) THEN "D"                    \* numeric widening
+               ELSE IF Both(a, b, {"L", "U"}) THEN "L"
+               ELSE IF Both(a, b, {"D", "U"}) THEN "D"
+               ELSE "O"
+RECURSIVE SpanAll(_)
+SpanAll(S) == IF Cardinality(S) = 1 THEN CHOOSE t \in S : TRUE
+              ELSE LET t == CHOOSE t \in S : TRUE IN Span2(t, SpanAll(S \ {t}))
+SafeSpan(S, marked) ==
+    LET t == SpanAll(S) IN
+    IF t \in {"D", "B", "S", "O", "X"} THEN t       \* double / bint / Python object types: always "safe"
+    ELSE IF marked THEN "O"                          \* C integer (long, Py_UCS4) in overflowing arithmetic -> Python object
+    ELSE t
+Static(p) ==
+    LET marks == MarkB(p.body)
+        fm == {x[1] : x \in {y \in marks : y[2] = "f"}}
+        lm == {x[1] : x \in {y \in marks : y[2] = "lam"}}
+        params == SeqSet(p.params)
+        locals == SeqSet(p.locals) \ params
+        \* a local is flow-stable when all its assignments have one type: NameNode.infer_type is flow-sensitive otherwise
+        stable(x) == x \in params \/ Cardinality(AsgB(p.body, x, p.ty)) <= 1
+        verdict(x) == LET S == AsgB(p.body, x, p.ty) IN
+                      IF S = {} THEN "unassigned"
+                      ELSE IF \E n \in RhsNamesB(p.body, x) \ {x} : ~stable(n) THEN "skipped"
+                      ELSE IF SafeSpan(S, x \in SeqSet(p.mk)) = p.ty[x] THEN "ok" ELSE "mismatch:" \o SafeSpan(S, x \in SeqSet(p.mk)) \o "/" \o p.ty[x]
+    IN [pid |-> p.pid, static |-> TRUE,
+        frag |-> BlockOK(p.body, p.ty),
+        marks |-> fm, lmarks |-> lm,
+        mark_ok |-> (fm \cap SeqSet(p.locals)) = SeqSet(p.mk) /\ lm = SeqSet(p.lmk),
+        span |-> [x \in locals |-> verdict(x)],
+        closure_unmarked |-> {x \in lm \ fm : p.ty[x] \in {"L", "U"}}]
+
+InitRun == \E pid \in 1..Len(Progs) :
+              \/ m = [ph |-> "static", pid |-> pid, done |-> FALSE, res |-> Und]
+              \/ \E inp \in 1..Len(Progs[pid].inputs) :
+                    m = [ph |-> "run", pid |-> pid, inp |-> inp, steps |-> 0, hz |-> {}, out |-> Running,
+                         stk |-> <<BlkFr(Progs[pid].body)>>,
+                         env |-> [x \in SeqSet(Progs[pid].locals) |->
+                                    IF \E j \in 1..Len(Progs[pid].params) : Progs[pid].params[j] = x
+                                    THEN Lit(Progs[pid].inputs[inp][CHOOSE j \in 1..Len(Progs[pid].params) : Progs[pid].params[j] = x])
+                                    ELSE Unb]]
+StaticStep == m.ph = "static" /\ ~m.done /\ m' = [m EXCEPT !.done = TRUE, !.res = Static(Progs[m.pid])]
+NextRun == \/ StaticStep \/ StepAsg \/ StepAug \/ StepIf \/ StepForRange \/ StepForStr \/ StepReturn
+           \/ StepIter \/ StepLoopEnd \/ StepBlockEnd \/ StepFallOff \/ OverBudget
+
+(* invariants *)
+RECURSIVE ValueOK(_)
+ValueOK(v) == IF v.t = "tup" THEN \A i \in 1..Len(v.xs) : ValueOK(v.xs[i])
+              ELSE IF v.t \in {"unb", "none", "run"} THEN TRUE ELSE WellFormedValue(v)
+RunWellFormed == m.ph = "run" =>
+    /\ \A x \in DOMAIN m.env : ValueOK(m.env[x]) /\ m.env[x].t \notin {"exc", "und", "tup", "run"}
+    /\ ValueOK(m.out)
+    /\ \A i \in 1..Len(m.stk) : m.stk[i].k \in {"blk", "forr", "fors"}
+    /\ m.steps <= MaxSteps
+IntsBounded == m.ph = "run" => \A x \in DOMAIN m.env : m.env[x].t = "int" => Len(m.env[x].m) <= MaxLimbs
+\* a C-typed local only ever holds a value its type represents -- or the anomaly is on record
+StoreSound == m.ph = "run" => \A x \in DOMAIN m.env :
+    (m.env[x].t # "unb" /\ ~Represents(T[x], m.env[x])) => \E h \in m.hz : h.v = x
+\* parameters are Python objects, never retyped
+ParamsAreObjects == m.ph = "run" => \A i \in 1..Len(P.params) : T[P.params[i]] = "O"
+HazardsAttributed == m.ph = "run" => \A h \in m.hz : h.c # ""
+Terminated == m.ph = "run" /\ m.out.t # "run"
+PublishRun == /\ Terminated => PrintT("@@" \o ToJson([pid |-> P.pid, inp |-> m.inp, out |-> m.out, hz |-> m.hz, steps |-> m.steps]))
+              /\ (m.ph = "static" /\ m.done) => PrintT("@@" \o ToJson(m.res))
 =============================================================================
